@@ -52,46 +52,19 @@ Definition a_rot (q : list N) : list N := match q with [] => [] | p :: r => r ++
 
 Record astate := mka { aL : N; aq : list N; alast : N; await : N; afw : N }.
 
-Section AMachine.
-Variable hp pbd : N.       (* height of the peer's tip; PARALLEL_BLOCKS_DOWNLOAD *)
-Variable th : N -> N.      (* the node's own height (stats.TopHeight) when the frontier is L *)
+(* heights h, h+1, ... ([k] of them) as far as the peer (tip height [hp]) has blocks: what a by-height request is
+   answered with *)
+Fixpoint hts (hp h : N) (k : nat) : list N :=
+  match k with O => [] | S k' => if h <=? hp then h :: hts hp (h + 1) k' else [] end.
 
-(* heights h, h+1, ... ([k] of them) as far as the peer has blocks: what a by-height request is answered with *)
-Fixpoint hts (h : N) (k : nat) : list N :=
-  match k with O => [] | S k' => if h <=? hp then h :: hts (h + 1) k' else [] end.
-
-Definition a_window (r : option (N * N)) : list N :=
-  match r with Some (h, c) => hts h (S (N.to_nat c)) | None => [] end.
-
-(* the by-height part of Synchronize: new SyncLastRequestHeight, n, forkWait and the request (height, count) made *)
-Definition a_tick_height (L last wait fw : N) : N * N * N * option (N * N) :=
-  let t := th L in
-  if (t <? last) && negb (20 <? wait) then (last, wait + 1, fw, None)
-  else if t <? hp then
-    let count := N.min (hp - t) pbd in (t + count, 0, fw, Some (t + 1, count))
-  else
-    let start := if pbd <? hp then hp - pbd + 1 else 1 in
-    let fw' := if 20 <=? fw then 0 else fw + 1 in
-    if (fw =? 0) && (start <=? hp) then (t, 0, fw', Some (start, hp - start)) else (t, 0, fw', None).
-
-Definition a_round (a : astate) : astate :=
-  if hp <? aL a then a
-  else
-    let r := a_tick_height (aL a) (alast a) (await a) (afw a) in
-    let st := fold_left proc (a_batch (aq a) (a_window (snd r))) (aL a, a_rot (aq a)) in
-    mka (fst st) (snd st) (fst (fst (fst r))) (snd (fst (fst r))) (snd (fst r)).
-
-Fixpoint a_iter (k : nat) (a : astate) : astate :=
-  match k with O => a | S k' => a_iter k' (a_round a) end.
-
-Lemma a_iter_add j k a : a_iter (j + k) a = a_iter k (a_iter j a).
-Proof. revert a. induction j as [|j IH]; intros a; [reflexivity|]. cbn [Nat.add a_iter]. apply IH. Qed.
-
-Lemma a_round_done a : hp < aL a -> a_round a = a.
-Proof. intros H. unfold a_round. destruct (N.ltb_spec hp (aL a)); [reflexivity|lia]. Qed.
-
-Lemma a_iter_done k a : hp < aL a -> a_iter k a = a.
-Proof. intros H. induction k as [|k IH]; [reflexivity|]. cbn [a_iter]. rewrite a_round_done by exact H. exact IH. Qed.
+Lemma in_hts hp k : forall h x, In x (hts hp h k) <-> h <= x /\ x < h + N.of_nat k /\ x <= hp.
+Proof.
+  induction k as [|k IH]; intros h x; cbn [hts].
+  - cbn. split; [intros []|lia].
+  - destruct (N.leb_spec h hp) as [Hle|Hgt].
+    + cbn [In]. rewrite IH. lia.
+    + cbn. split; [intros []|lia].
+Qed.
 
 (* ------------------------------------------------------------------ list facts *)
 Lemma in_a_rm q x y : In y (a_rm q x) <-> In y q /\ y <> x.
@@ -260,6 +233,9 @@ Qed.
 
 Lemma sig_a_set L q v : L <= v -> sig L (a_set q v) = sig L q.
 Proof. intros Hv. unfold a_set. destruct (existsb _ q); [reflexivity|apply sig_ins_sorted; exact Hv]. Qed.
+
+Section Batch.
+Variable hp : N.       (* height of the peer's tip *)
 
 (* ------------------------------------------------------------------ one block handed to the post-processor *)
 (* queue entries are heights of the peer's chain, at least 1 *)
@@ -492,17 +468,56 @@ Proof.
     split; [exact HS3|]. split; [lia|]. intros _. reflexivity.
 Qed.
 
+End Batch.
+
+Section AMachine.
+Variable hp pbd : N.       (* height of the peer's tip; PARALLEL_BLOCKS_DOWNLOAD *)
+Variable th : N -> N.      (* the node's own height (stats.TopHeight) when the frontier is L *)
+Notation hts := (hts hp).
+
+Definition a_window (r : option (N * N)) : list N :=
+  match r with Some (h, c) => hts h (S (N.to_nat c)) | None => [] end.
+
+(* the by-height part of Synchronize: new SyncLastRequestHeight, n, forkWait and the request (height, count) made *)
+Definition a_tick_height (L last wait fw : N) : N * N * N * option (N * N) :=
+  let t := th L in
+  if (t <? last) && negb (20 <? wait) then (last, wait + 1, fw, None)
+  else if t <? hp then
+    let count := N.min (hp - t) pbd in (t + count, 0, fw, Some (t + 1, count))
+  else
+    let start := if pbd <? hp then hp - pbd + 1 else 1 in
+    let fw' := if 20 <=? fw then 0 else fw + 1 in
+    if (fw =? 0) && (start <=? hp) then (t, 0, fw', Some (start, hp - start)) else (t, 0, fw', None).
+
+Definition a_round (a : astate) : astate :=
+  if hp <? aL a then a
+  else
+    let r := a_tick_height (aL a) (alast a) (await a) (afw a) in
+    let st := fold_left proc (a_batch (aq a) (a_window (snd r))) (aL a, a_rot (aq a)) in
+    mka (fst st) (snd st) (fst (fst (fst r))) (snd (fst (fst r))) (snd (fst r)).
+
+Fixpoint a_iter (k : nat) (a : astate) : astate :=
+  match k with O => a | S k' => a_iter k' (a_round a) end.
+
+Lemma a_iter_add j k a : a_iter (j + k) a = a_iter k (a_iter j a).
+Proof. revert a. induction j as [|j IH]; intros a; [reflexivity|]. cbn [Nat.add a_iter]. apply IH. Qed.
+
+Lemma a_round_done a : hp < aL a -> a_round a = a.
+Proof. intros H. unfold a_round. destruct (N.ltb_spec hp (aL a)); [reflexivity|lia]. Qed.
+
+Lemma a_iter_done k a : hp < aL a -> a_iter k a = a.
+Proof. intros H. induction k as [|k IH]; [reflexivity|]. cbn [a_iter]. rewrite a_round_done by exact H. exact IH. Qed.
+
+Notation QB := (QB hp).
+Notation SInv := (SInv hp).
+Notation SInv_tl := (SInv_tl hp).
+Notation proc_SInv := (proc_SInv hp).
+Notation fold_proc_SInv := (fold_proc_SInv hp).
+Notation fold_proc_keep := (fold_proc_keep hp).
+Notation round_fold := (round_fold hp).
+
 (* ------------------------------------------------------------------ the by-height part *)
 Hypothesis Hpbd : 1 <= pbd.
-
-Lemma in_hts k : forall h x, In x (hts h k) <-> h <= x /\ x < h + N.of_nat k /\ x <= hp.
-Proof.
-  induction k as [|k IH]; intros h x; cbn [hts].
-  - cbn. split; [intros []|lia].
-  - destruct (N.leb_spec h hp) as [Hle|Hgt].
-    + cbn [In]. rewrite IH. lia.
-    + cbn. split; [intros []|lia].
-Qed.
 
 (* the number of iterations until the by-height part makes a request *)
 Definition tau (L last wait fw : N) : N :=
